@@ -170,15 +170,18 @@ class HttpParser:
         nb_parsed = 0
         while True:
             if not self.__on_firstline:
+                # the first line may arrive in several pieces and its CRLF
+                # may be split as well: search the carried-over bytes
+                # together with the new ones
+                carried = sum(len(part) for part in self._buf)
+                data = b''.join(self._buf) + data
                 idx = data.find(b'\r\n')
                 if idx < 0:
-                    self._buf.append(data)
-                    return len(data)
+                    self._buf = [data]
+                    return length
                 self.__on_firstline = True
-                self._buf.append(data[:idx])
-                first_line = b''.join(self._buf)
-                first_line = str(first_line, 'unicode_escape')
-                nb_parsed = nb_parsed + idx + 2
+                first_line = str(data[:idx], 'unicode_escape')
+                nb_parsed = nb_parsed + idx + 2 - carried
 
                 rest = data[idx + 2 :]
                 data = b''
